@@ -1,5 +1,29 @@
 /-
 C13 — property theorems. Model: `HydroVerif/Model/C13.lean`.
+
+Clause → theorems → what remains outside (every model function named below runs in `Drivers/C13.lean` and is compared
+with the real code by `harness/c13.py`; the op is given in brackets)
+
+| clause of the property                                        | theorems (all shapes, all words, all histories)               | outside the theorems |
+|---------------------------------------------------------------|----------------------------------------------------------------|----------------------|
+| saved to BIL + header and loaded back: identical shape,       | `header_roundtrip`, `header_dtype_table`, `load_file`,         | float text: `IOok`, `NodataPrintable` are hypotheses about  |
+| georeferencing, dtype, no-data value [save, load]             | `load_saveData`, `fromStream_file`, `save_load`                | CPython/numpy (`external_text_statement`), checked directly |
+| … bit-identical cell values, every supported type             | `decode_encode`, `fromfile_encode`, `clipWord_id`,             | on all float16 and random float32/64 words; `tofile`,       |
+| (full range, NaN/inf) [save, load, setdata]                   | `clipData_default`, `setData_id`, `load_file`, `save_load`     | `fromfile`, zipfile, the file system (end-to-end oracle)    |
+| … rasters of either byte order [savebo, load]                 | `fromStream_file` (bo = I, M), `decode_little_encode_big_iff`  | a grid object itself is always native: `M` only on files    |
+| exported to a dictionary and rebuilt: shape, georef, dtype,   | `dtypeOfStr_dtypeStr`, `nodataWord_text`, `dict_roundtrip`     | numpy scalar construction from text (same `NumIO`)          |
+| no-data value [todict, fromdict]                              |                                                                |                                                             |
+| cloned: identical, bit-identical cells [clone, cloneas]       | `clone_eq`, `cloneAs_same`                                     | `copy.deepcopy` itself (clone is the identity on the record)|
+| clones are independent of the original [store, storeas,       | `clone_independent`, `cloneAs_independent`,                    | metadata attributes of two Python objects (scalars/strings):|
+| store3]                                                       | `handles_independent` (any number of clones, any history)      | oracle only                                                 |
+| catchment rebuilt from its dictionary: same outlet, inlets    | `catchToDict_ok_iff`, `catchment_dict_roundtrip`               | delineation itself (C06); the flow-direction DATA are not   |
+| (present or None), areas [catch]                              |                                                                | in the dictionary (by design of the code)                   |
+| clipped grid holds exactly the parent's values at coinciding  | `clip_parent_values`, `clip_wellformed`, `clip_of_clip`        | exact arithmetic (ordered field with floor); IEEE rounding   |
+| cell centres, boxes with both corners in the extent [clip]    |                                                                | of corners within an ulp of a cell edge: correspondence at   |
+|                                                               |                                                                | Float + centre oracle                                        |
+| histories: save → edit → save → load; load → edit → to_dict;  | `edits_preserve_gridOK`, `save_load_after_edits`,              | re-assignment of `dtype`, `nrows`, `ncols`, `mindata`,       |
+| attribute re-assignment between exports [edits]               | `dict_after_edits`                                             | `maxdata` (not in the quantifier)                            |
+| (diagnostic) the pinned code's float64 detour                 | `roundF64_small` + example                                     |                                                             |
 -/
 import HydroVerif.Lemmas.C13Header
 import HydroVerif.Lemmas.C13Clip
@@ -311,6 +335,19 @@ theorem save_load {ν : Type} (io : NumIO ν) (hio : IOok io) (g : Grid ν) (hg 
   · have he : encode ByteOrder.little g.dtype.bytes = encodeLE g.dtype.bytes := by funext w; rfl
     rw [he] at hl
     exact hl
+
+/-- **what is assumed of CPython / numpy** (not provable here: the shortest-repr printer and `float()` are external):
+float printing has no white space and reads back exactly, and every float no-data word that is not a NaN with a
+non-canonical payload is printed as a non-integer literal that reads back to the same word. The theorems above take
+exactly these facts as hypotheses (`IOok`, `NodataPrintable`); the harness checks them directly on all 65536 float16
+words and on random float32 / float64 words. -/
+def external_text_statement {ν : Type} (io : NumIO ν) (isNaNWord : DType → Nat → Bool) : Prop :=
+  IOok io ∧ ∀ t ∈ allDTypes, ∀ w, w < wordBound t → isNaNWord t w = false → NodataPrintable io t w
+
+/-- the proved part: for the integer types nothing is assumed — their no-data text is produced and parsed concretely -/
+theorem external_text_partial {ν : Type} (io : NumIO ν) (t : DType) (w : Nat) (hk : t.kind ≠ .float) :
+    NodataPrintable io t w :=
+  fun h => absurd h hk
 
 /-! ## 5. dictionaries -/
 
